@@ -150,6 +150,35 @@ def per_worker_kernel(facts, ex, res, wid_calls):
                               "wrapper call inside a task does not select the kernel by the executing worker's id evaluated in the task body (got: %s)" % [o for o in c["args"] if "kernel" in o.lower() or o == "K"])
 
 
+def shared_wrapper_immutable(facts, res):
+    """(d) third part: the group-kernel wrapper is one object shared by every task of an executor, so it
+    must carry no state a task can change: no `mutable` member, every operator method const, and no
+    method writes a member"""
+    R = "C03.d.shared-wrapper-immutable"
+    cls = facts.cls("TbfGroupKernelInterface")
+    f = tbf.rel(facts.path_of(cls))
+    for fl in cls["fields"]:
+        res.instance(R, "field " + fl["name"], facts.loc(fl) if fl.get("l") else f, "type %s mutable=%s" % (fl["t"], bool(fl.get("mutable"))))
+        if fl.get("mutable"):
+            res.violation(R, f, "TbfGroupKernelInterface", "mutable:" + fl["name"], fl.get("l", [0, 0])[1],
+                          "member '%s' of the wrapper shared by all tasks is mutable: concurrent operator calls overwrite each other's state" % fl["name"])
+        elif not fl["t"].startswith("const "):
+            res.violation(R, f, "TbfGroupKernelInterface", "nonconst:" + fl["name"], fl.get("l", [0, 0])[1],
+                          "member '%s' of the wrapper shared by all tasks is not const" % fl["name"])
+    names = set(fl["name"] for fl in cls["fields"])
+    n = 0
+    for m in facts.methods_of("TbfGroupKernelInterface"):
+        if m["kind"] != "CXXMethod":
+            continue
+        n += 1
+        if not m.get("const"):
+            res.violation(R, tbf.rel(facts.path_of(m)), m["qname"], "nonconst-method", m["l"][1], "wrapper operator %s is not const although the wrapper is shared by concurrent tasks" % m["name"])
+        for x in walk(tbf.body(m)):
+            if x.get("k") in ("VarDecl",) and x.get("staticlocal"):
+                res.violation(R, tbf.rel(facts.path_of(x)), m["qname"], "static:" + x["name"], x["l"][1], "function-local static '%s' in a wrapper operator is shared by concurrent tasks" % x["name"])
+    res.floor(R, n, 10, "wrapper operator methods")
+
+
 def run(res, tier):
     facts = tbf.scan("core")
     res.units.append("umbrella TU 'core' (%d headers, %d function patterns)" % (len(facts.headers), len(facts.functions)))
@@ -160,6 +189,7 @@ def run(res, tier):
     res.rule("C03.e join: task-creating stage functions are called only from execute(), inside the joining region")
     cmap = effects.container_map(facts)
     weff = effects.wrapper_effects(facts, cmap)
+    shared_wrapper_immutable(facts, res)
     ntasks = 0
     nunits = 0
     for cls, refcls in PAIRS:
